@@ -28,6 +28,7 @@ KEY_MAP = "crash:map-missing-next-to-complete-sv-kept-as-hit"
 KEY_REVERT = "crash:output-of-crashed-run-kept-after-revert"
 KEY_DIAG = "damage:diagnostics-blob-unreadable-warnings-dropped"
 KEY_FLIP = "damage:blob-payload-corruption-accepted"
+KEY_FLIP_PANIC = "damage:blob-payload-corruption-panic"
 
 SYSC = "openat,write,rename,renameat,renameat2,unlink,unlinkat,fchmod,mkdir"
 WORKERS = int(os.environ.get("VERIF_C05_WORKERS", "8"))
@@ -644,6 +645,8 @@ def apply_damage(p, op, seed):
     kind, arg = op
     n = len(data)
     pos = {"half": n // 2, "m1": max(n - 1, 0), "q": n // 4, "q3": 3 * n // 4}.get(arg, arg)
+    if kind == "flipfrac":            # sweep over the payload: position 8 + arg/128 of the rest
+        kind, pos = "flip", 8 + (max(n - 8, 1) * arg) // 128
     if kind == "trunc":
         new = data[:pos]
     elif kind == "flip":
@@ -754,34 +757,39 @@ def damage_case(t, xdg, role, op, edit, seed, clean):
     d = compare(obs, outs, cobs, couts)
     res["diff"] = d
     if d:
-        res["detail"] = {"obs_tail": [o["tail"][-800:] for o in obs], "files": dict(t.files)}
+        res["detail"] = {"obs_tail": [o["tail"][-800:] for o in obs], "obs_full": [o["tail"] for o in obs], "files": dict(t.files)}
         res["key"] = classify_damage(t, res, role, obs, cobs, outs, couts)
+        del res["detail"]["obs_full"]
     return res
 
 
 def classify_damage(t, res, role, obs, cobs, outs, couts):
     """Verified signatures of the recorded damage findings.
-    KEY_DIAG: the damaged file is the blob an entry names as `diagnostics` and is no longer readable as a
-      blob or as diagnostics; the file is still restored; exactly the diagnostics located in that source are
-      missing from `check`; outputs are right; nothing else differs.
     KEY_FLIP: the damaged file is a fragment/diagnostics blob whose 8-byte header is intact and whose size is
       unchanged, but whose BLAKE3 no longer equals its file name (`read_blob` checks magic+version only and
-      the decoder accepted the payload): the run does not panic, outputs are untouched, and diagnostics or
-      exit status differ."""
-    if not role.startswith(("diag:", "frag:")) or res["diff"][0] not in ("status", "diags") or outs != couts:
-        return None
+      the decoder accepted the payload); the run does not panic.  What then differs (diagnostics, exit
+      status, the filelist, an output that a failed build did not refresh) depends on the byte.
+    KEY_FLIP_PANIC: the same damage, and the analyzer panics on the restored state (sites recorded).
+    KEY_DIAG: the damaged file is the blob an entry names as `diagnostics` and is no longer readable as a
+      blob; its source was not edited and is still restored; exactly the diagnostics located in that source
+      are missing from `check`; outputs are right; nothing else differs."""
+    if res.get("payload_only") and any(o["panic"] for o in obs) and res.get("name_is_hash") is not True:
+        res["panic_sites"] = sorted(set(re.findall(r"panicked at ([^\n]*)", "\n".join(res["detail"]["obs_full"]))))
+        return KEY_FLIP_PANIC
     if any(o["panic"] for o in obs):
         return None
-    chk, cchk = obs[0], cobs[0]
     if res.get("payload_only"):
         if res.get("name_is_hash") is True:
             return None
         res["flip_hash_check"] = ("blake3(file) != file name" if res.get("name_is_hash") is False
                                   else "bytes differ from the saved blob (hx unavailable)")
         return KEY_FLIP
-    if role.startswith("diag:"):
+    if role.startswith("diag:") and res["diff"][0] in ("status", "diags") and outs == couts:
         src = f"src/{role[5:]}.veryl"
-        if chk["restored"] is None or chk["restored"][0] != chk["restored"][1]:
+        if t.files.get(src) != t.pre_files.get(src):
+            return None
+        chk, cchk = obs[0], cobs[0]
+        if chk["restored"] is None or chk["restored"][0] < 1:
             return None
         missing = [d for d in cchk["diags"] if d not in chk["diags"]]
         extra = [d for d in chk["diags"] if d not in cchk["diags"]]
@@ -792,8 +800,6 @@ def classify_damage(t, res, role, obs, cobs, outs, couts):
             return KEY_DIAG
     return None
 
-
-# ---------------------------------------------------------------------------------------------
 
 # ---------------------------------------------------------------------------------------------
 
@@ -941,6 +947,9 @@ def run(ctx):
         roles_quick = ["manifest", "info", "diag:leaf", "frag:leaf", "frag:pkg_a", "lock", "cachelock"]
         roles_all = roles_quick + ["frag:alone", "frag:if_a", "frag:mid", "frag:pkg_b", "frag:top"]
         cases = []
+        if thorough:        # one bit at 128 evenly spread payload positions of one fragment
+            for k in range(128):
+                cases.append(("frag:leaf", ("flipfrac", k), None, ctx.seed + k))
         for role in (roles_all if thorough else roles_quick):
             for op in damage_ops(True):
                 if role in ("lock", "cachelock") and (op[0] == "flip" or (op[0] == "trunc" and op[1] != 0)):
@@ -971,7 +980,8 @@ def run(ctx):
                     "how": ["project = files above (default Veryl.toml of tools/proj.py); veryl build",
                             f"damage {r['rel']} ({r['role']}, {r['len']} bytes): {r['op']}",
                             f"edit: {r['edit']}", "veryl check ; veryl build  -- compare with the same on a fresh copy"],
-                    "difference": r["diff"][1], "runs": r["obs"], "output_tail": r["detail"]["obs_tail"], "signature": r.get("key")}
+                    "difference": r["diff"][1], "runs": r["obs"], "output_tail": r["detail"]["obs_tail"], "signature": r.get("key"),
+                    "panic_sites": r.get("panic_sites"), "hash_check": r.get("flip_hash_check")}
             key = r.get("key")
             if key:
                 bump("finding_" + key)
@@ -983,6 +993,7 @@ def run(ctx):
             b = dict(bodies[0])
             b["cases_with_this_signature"] = len(bodies)
             b["all_damages"] = [x["how"][1] + (f" + edit {x['how'][2]}" if "None" not in x["how"][2] else "") for x in bodies][:40]
+            b["all_panic_sites"] = sorted(set(y for x in bodies for y in (x.get("panic_sites") or [])))
             ctx.violation(f"{len(bodies)} damage case(s) — {key}: {bodies[0]['difference']}", b, key=key)
         ctx.cov["distribution"] = hist
     finally:
